@@ -57,6 +57,25 @@ def ksCastle (c : Color) : BB := setOf fun s => s.rank == c.homeRank && (s.fileN
 def qsCastle (c : Color) : BB := setOf fun s => s.rank == c.homeRank && (s.fileN == 1 || s.fileN == 2 || s.fileN == 3)
 def castleMoves : BB := setOf fun s => (s.rankN == 0 || s.rankN == 7) && (s.fileN == 2 || s.fileN == 4 || s.fileN == 6)
 
+/-- one step from `s` by `(df, dr)`: nothing at the board edge -/
+def step (s : Sq) (df dr : Int) : Option Sq := Chess.sq? (s.file + df) (s.rank + dr)
+/-- the wrapping variant: coordinates modulo 8 -/
+def stepWrap (s : Sq) (df dr : Int) : Sq :=
+  ⟨(((s.rank + dr) % 8).toNat % 8) * 8 + (((s.file + df) % 8).toNat % 8), by omega⟩
+
+/-- C16 on pawn pushes with blockers: single step iff the square ahead is empty, double step iff on the
+start rank and both squares are empty -/
+def pawnQuiets (c : Color) (s : Sq) (blockers : BB) : BB :=
+  match step s 0 c.fwd with
+  | none => 0#64
+  | some o =>
+    if blockers.has o then 0#64
+    else BB.ofSq o ||| (if s.rank == c.pawnRank then
+        (match step s 0 (2 * c.fwd) with
+         | some t => if blockers.has t then 0#64 else BB.ofSq t
+         | none => 0#64)
+      else 0#64)
+
 end Geom
 
 /-- every table field equals its geometric definition -/
